@@ -1,7 +1,7 @@
 """Base class of a property check."""
 import os
 
-from vlib import core, runner
+from vlib import core, runner  # noqa
 
 
 class Check:
@@ -32,3 +32,122 @@ class Check:
         p = os.path.join(core.WORK, self.prop.lower(), *parts)
         os.makedirs(os.path.dirname(p), exist_ok=True)
         return p
+
+
+class StdCheck(Check):
+    """A check whose harness follows the standard line protocol: `gen --seed S --tier T` / `ops FILE`,
+    cases start with a `C ` line, the driver prints MISMATCH/SPECFAIL/BADLINE/STATS."""
+
+    rule = ""
+    eval_key = "steps"
+    case_start = "C"
+    max_shrunk = 3
+    sample_case = 2
+
+    def _run(self, harness_cmd, driver, save):
+        hrc, herr, drc, lines = runner.pipeline(harness_cmd, [driver], save)
+        if hrc != 0:
+            raise core.TieBroken(f"harness:{self.prop.lower()}:run", f"rc={hrc}\n{herr}")
+        if drc != 0:
+            raise core.TieBroken(f"driver:{self.prop.lower()}:run", "\n".join(lines[-20:]))
+        return lines
+
+    def _fails(self, harness, driver, lines, want_prefix, want_sub=""):
+        f = self.work("shrink.ops")
+        with open(f, "w") as fh:
+            fh.write("\n".join(runner.strip_obs(l) for l in lines) + "\n")
+        try:
+            out = self._run([harness, "ops", f], driver, self.work("shrink.out"))
+        except core.TieBroken:
+            return False
+        return any(l.startswith(want_prefix) and want_sub in l for l in out)
+
+    def gen_cmd(self, harness, tier, seed):
+        return [harness, "gen", "--seed", str(seed), "--tier", tier]
+
+    def corpus_files(self):
+        import glob
+        return sorted(glob.glob(os.path.join(core.ROOT, "corpus", self.prop, "*.ops")))
+
+    def shrink(self, harness, driver, case, prefix, sub=""):
+        hdr, ops = case[:1], case[1:]
+        if self._fails(harness, driver, hdr + ops, prefix, sub):
+            ops = runner.ddmin(hdr, ops, lambda ls: self._fails(harness, driver, ls, prefix, sub))
+            self._fails(harness, driver, hdr + ops, prefix, sub)
+            return open(self.work("shrink.out")).read().splitlines()
+        return case  # not reproducible in isolation (state carried between cases): keep the original
+
+    def collect(self, res, lines, save, harness, driver):
+        bad = [l for l in lines if l.startswith("BADLINE")]
+        if bad:
+            res.corr_failures.append(runner.Finding("corr", "protocol", bad[:5]))
+        seen = {}
+        for l in lines:
+            if l.startswith("SPECFAIL"):
+                kv = core.parse_kv(l)
+                cl = kv.get("clause", "?")
+                seen.setdefault(cl, [])
+                if len(seen[cl]) >= self.max_shrunk:
+                    continue
+                case = runner.extract_case(save, int(kv["case"]), self.case_start)
+                shown = self.shrink(harness, driver, case, "SPECFAIL", "clause=" + cl)
+                seen[cl].append(shown)
+                res.spec_failures.append(runner.Finding("spec", f"spec:{self.prop}:{cl}", shown, {"driver": l}))
+        n = 0
+        seen_m = set()
+        for l in lines:
+            if l.startswith("MISMATCH") and n < self.max_shrunk:
+                kv = core.parse_kv(l)
+                case = runner.extract_case(save, int(kv["case"]), self.case_start)
+                shown = self.shrink(harness, driver, case, "MISMATCH")
+                key = tuple(shown)
+                if key in seen_m:
+                    continue
+                seen_m.add(key)
+                n += 1
+                res.corr_failures.append(runner.Finding("corr", kv.get("op", "observation"), shown, {"driver": l}))
+
+    def correspondence(self, tier, seed, harness, driver):
+        res = runner.Result()
+        total = {}
+        # corpus first
+        for cf in self.corpus_files():
+            save = self.work("corpus.out")
+            lines = self._run([harness, "ops", cf], driver, save)
+            self.collect(res, lines, save, harness, driver)
+            for l in lines:
+                if l.startswith("STATS"):
+                    for k, v in core.parse_kv(l).items():
+                        if v.isdigit():
+                            total["corpus_" + k] = total.get("corpus_" + k, 0) + int(v)
+        save = self.work("gen.out")
+        lines = self._run(self.gen_cmd(harness, tier, seed), driver, save)
+        stats = {}
+        for l in lines:
+            if l.startswith("STATS"):
+                stats = {k: int(v) for k, v in core.parse_kv(l).items() if v.lstrip("-").isdigit()}
+        if not stats:
+            raise core.TieBroken(f"driver:{self.prop.lower()}:no-stats", "\n".join(lines[-20:]))
+        stats.update(total)
+        res.stats = stats
+        res.evaluations = stats.get(self.eval_key, 0)
+        res.distinct_nontrivial = stats.get("nontrivial", 0)
+        res.traces_validated = stats.get("cases", 0)
+        res.exhaustive = getattr(self, "exhaustive", False)
+        res.rule = self.rule
+        res.samples = runner.extract_case(save, self.sample_case, self.case_start)[:14] + ["..."] + \
+            runner.extract_case(save, stats.get("cases", 1), self.case_start)[:14]
+        self.collect(res, lines, save, harness, driver)
+        return res
+
+    def replay(self, path, harness, driver):
+        import json
+        data = json.load(open(path))
+        lines = [l for l in data.get("case", []) if l.strip()]
+        f = self.work("replay.ops")
+        with open(f, "w") as fh:
+            fh.write("\n".join(runner.strip_obs(l) for l in lines) + "\n")
+        out = self._run([harness, "ops", f], driver, self.work("replay.out"))
+        print(open(self.work("replay.out")).read())
+        print("\n".join(out))
+        return not any(l.startswith(("SPECFAIL", "MISMATCH", "BADLINE")) for l in out)
